@@ -81,6 +81,20 @@ CLAIMED["C13"] = dict(
     design="DESIGN.md section 6, C13",
 )
 
+CLAIMED["C02"] = dict(
+    text="Lean 4 theorems for strings of any length over all Unicode scalar values: json.loads(json.dumps(v)) == v for the "
+    "writer/reader pair of the 'diff' formatter and the parser (ensure_ascii escapes, surrogate pairs, strict reader), and every "
+    "dumped value is printable ASCII, hence contains no str.splitlines() boundary - one action per line. PARTIAL: "
+    "parse(format(script)) = script for the whole line grammar (splitlines, field scanner, strip, dispatch, int, paths) is "
+    "modelled (Model/TextFormat.lean) and compared with the code on every run (U6: well-formed and malformed text, the "
+    "critical character set in every value field), but not yet proved; the property itself is decided on the real code by "
+    "the round-trip oracle and the diff_texts|patch_text and xmldiff|xmlpatch pipelines.",
+    note="Trusted: Lean kernel and standard axioms; models of json.dumps/loads, str.splitlines, str.strip, int() validated by "
+    "U6, CPython not verified. Fixed defect 0c07143 (commas inside JSON values split the field) is recorded in known_findings.json.",
+    technique="Lean 4 proof (JSON escape/unescape round trip) + model/code differential correspondence + round-trip oracles",
+    design="DESIGN.md section 6, C02",
+)
+
 NOT_YET = {}
 
 
